@@ -313,6 +313,11 @@ def check_history(line, real, want):
                     rl = tr.rule_for(n)
                     if rl and dones.get(n) == 0 and tr.scripts[rl].get("tol"):
                         badd = [d for d in tr.scripts[rl]["deps"] if dones.get(d, 0) != 0]
+                        if n in tr.scripts[rl]["deps"]:
+                            # a script that asks for its own target: the whole redo-ifchange is refused
+                            # (208) before anything is declared (C12_self_dependency: no state change),
+                            # so the failed dependencies named beside it were never recorded
+                            badd = []
                         if badd:
                             tolerated_prev[n] = badd
                 for n in failed_in_prev:
